@@ -27,11 +27,15 @@ case "$c" in ok*) C=pass;; *) C=FAIL;; esac
 rm -f zz_seed_demo_test.go
 echo "$id-$x: (a) unchanged+demo=$A  (b) change+suite=$B  (c) change+demo=$C"
 if [ "$A" != pass ] || [ "$B" != pass ] || [ "$C" != FAIL ]; then echo "NOT CONFIRMED"; exit 4; fi
-# run the checks with the patch applied to /repo itself, undo straight afterwards
+# run the checks on a scratch copy of /repo's working tree with the patch applied (the same
+# analysis as `git -C /repo apply …; ./check.sh all quick; git -C /repo checkout -- .`, without
+# disturbing a check that is reading /repo at the same moment)
 cd /verif
-git -C /repo apply $src/patch.diff || exit 3
-out=$(/verif/check.sh all quick -no-evidence 2>&1)
-git -C /repo checkout -- .
+sc=$(mktemp -d /tmp/seedcheck.XXXXXX)
+rsync -a --exclude .git /repo/ $sc/
+( cd $sc && patch -p1 -s --no-backup-if-mismatch -i $src/patch.diff ) || { rm -rf $sc; exit 3; }
+out=$(TWIG_REPO=$sc /verif/check.sh all quick -no-evidence 2>&1)
+rm -rf $sc
 det=$(echo "$out" | grep -o "VIOLATION property=C[0-9]*" | sort -u | sed 's/VIOLATION property=//' | tr '\n' ' ')
 und=$(echo "$out" | grep -o "CANNOT-DECIDE property=C[0-9]*" | sort -u | sed 's/CANNOT-DECIDE property=//' | tr '\n' ' ')
 echo "   detected by: [${det}]   cannot-decide: [${und}]"
@@ -47,6 +51,6 @@ meta={"property":id,"variant":x,"origin":"independent sub-agent given only the p
  "confirmed":{"unchanged_tree_plus_demo":"pass","change_plus_existing_suite":"pass","change_plus_demo":"fail",
    "how":"tools/seed_import.sh: fresh scratch worktree of /repo HEAD; go test -vet=off -count=1 (-run TestSeedDemo) ."},
  "detected_by":det.split(),
- "checks_run":"patch applied to /repo, ./check.sh all quick -no-evidence, git -C /repo checkout -- ."}
+ "checks_run":"patch applied to a scratch copy of /repo's working tree, TWIG_REPO=<copy> ./check.sh all quick -no-evidence"}
 json.dump(meta,open(dst+'/meta.json','w'),indent=1)
 PY
